@@ -1,6 +1,6 @@
 (* C19 - an AMQP URL means the same connection parameters for every URL.
    This file only pins statements. *)
-From Amq Require Import Lib.Base Gen.Consts Model.Url Proofs.Url Lib.RsVal Lib.RsStr Gen.SrcUrl Proofs.UrlSrc.
+From Amq Require Import Lib.Base Gen.Consts Model.Url Proofs.Url Lib.RsVal Lib.RsStr Gen.SrcUrl Proofs.UrlSrc Gen.SrcDecode Proofs.DecodeSrc.
 
 (* every byte string survives percent-encoding followed by the client's decoding (user, password, virtual host) *)
 Theorem C19_percent_roundtrip : forall s : list N, Forall (fun c : N => c < 256) s -> percent_decode (percent_encode s) = s.
@@ -54,9 +54,13 @@ Proof. exact secure_gate. Qed.
 Theorem C19_secure_gate_insecure : forall (u : surl) (o : uopts), u_scheme u = s_amqp -> decode u = inl o -> open_plan u false = PFail UeInsecure.
 Proof. exact secure_gate_insecure. Qed.
 
-(* THE MODEL IS THE SOURCE: amqp_url::populate_host_and_port of src/connection.rs as translated from the source text on every run (Gen/SrcUrl.v, tools/rs2sm.py; the &mut Url is the state, string literals are their bytes) is the model's host_of / scheme_port: an absent or empty host becomes localhost, amqp defaults the port to 5672 and amqps to 5671 (an explicit port is kept), any other scheme is InvalidUrlScheme - for every scheme, host and port. (decode - vhost, credentials, query parameters - is tied by the correspondence only: its iterator and string code is outside the translator's subset.) *)
-Theorem C19_populate_source_is_model : forall (scheme : str) (host : option str) (port : option N), let u := mk scheme host port in gen_populate_host_and_port ext_model ext_st_model (enc_url scheme host port) = match scheme_port u with | inl (secure, p) => (enc_url scheme (Some (host_of u)) (Some p), VC "Ok" [VC (if secure then "Scheme::Amqps" else "Scheme::Amqp") []]) | inr _ => (enc_url scheme (Some (host_of u)) port, VC "Err" [VC "Error::InvalidUrlScheme" [enc_url scheme (Some (host_of u)) port]]) end.
+(* THE MODEL IS THE SOURCE: amqp_url::populate_host_and_port of src/connection.rs as translated from the source text on every run (Gen/SrcUrl.v, tools/rs2sm.py; the &mut Url is the state, string literals are their bytes) is the model's host_of / scheme_port: an absent or empty host becomes localhost, amqp defaults the port to 5672 and amqps to 5671 (an explicit port is kept), any other scheme is InvalidUrlScheme - for every scheme, host and port. *)
+Theorem C19_populate_source_is_model : forall (scheme : str) (host : option str) (port : option N), let u := mk scheme host port in gen_populate_host_and_port UrlSrc.ext_model ext_st_model (UrlSrc.enc_url scheme host port) = match scheme_port u with | inl (secure, p) => (UrlSrc.enc_url scheme (Some (host_of u)) (Some p), VC "Ok" [VC (if secure then "Scheme::Amqps" else "Scheme::Amqp") []]) | inr _ => (UrlSrc.enc_url scheme (Some (host_of u)) port, VC "Err" [VC "Error::InvalidUrlScheme" [UrlSrc.enc_url scheme (Some (host_of u)) port]]) end.
 Proof. exact populate_source_is_model. Qed.
+
+(* THE MODEL IS THE SOURCE: amqp_url::decode of src/connection.rs as translated from the source text on every run (Gen/SrcDecode.v, tools/rs2sm.py: the path-segment iterator is a local whose next() takes its first item, the loop over the query pairs is structurally recursive - one copy per path that reaches it, each proved to be the model's query_fold) is the model's decode for EVERY URL as the url crate has split it (with the first path segment it guarantees): virtual host (percent-decoded, an empty first segment ignored, a second segment an error), credentials (defaults guest / guest, percent-decoded), heartbeat / channel_max / connection_timeout (parsed as u16 / u16 / u64) and auth_mechanism=external, every other parameter an error - the same options or the same error. ext_model states what is assumed of the url crate's accessors, percent_decode, str::parse and ConnectionOptions' builder methods *)
+Theorem C19_decode_source_is_model : forall u : surl, u_segments u <> Some [] -> gen_decode ext_model (enc_url u) = enc_result (enc_url u) (decode u).
+Proof. exact decode_source_is_model. Qed.
 
 (* non-vacuity: a URL with everything in it *)
 Example C19_example :
@@ -80,7 +84,8 @@ Check C19_host_port : forall u : surl, (u_host u = None \/ u_host u = Some [] ->
 Check C19_userinfo : forall (u : surl) (o : uopts), u_segments u = None -> u_query u = [] -> decode u = inl o -> v_auth o = match u_user u with | [] => match u_pass u with | Some p => UPlain s_guest (percent_decode p) | None => UPlain s_guest s_guest end | n :: l => let usr := n :: l in match u_pass u with | Some p => UPlain (percent_decode usr) (percent_decode p) | None => UPlain (percent_decode usr) s_guest end end.
 Check C19_secure_gate : forall u : surl, u_scheme u = s_amqp -> exists e : uerr, open_plan u false = PFail e.
 Check C19_secure_gate_insecure : forall (u : surl) (o : uopts), u_scheme u = s_amqp -> decode u = inl o -> open_plan u false = PFail UeInsecure.
-Check C19_populate_source_is_model : forall (scheme : str) (host : option str) (port : option N), let u := mk scheme host port in gen_populate_host_and_port ext_model ext_st_model (enc_url scheme host port) = match scheme_port u with | inl (secure, p) => (enc_url scheme (Some (host_of u)) (Some p), VC "Ok" [VC (if secure then "Scheme::Amqps" else "Scheme::Amqp") []]) | inr _ => (enc_url scheme (Some (host_of u)) port, VC "Err" [VC "Error::InvalidUrlScheme" [enc_url scheme (Some (host_of u)) port]]) end.
+Check C19_populate_source_is_model : forall (scheme : str) (host : option str) (port : option N), let u := mk scheme host port in gen_populate_host_and_port UrlSrc.ext_model ext_st_model (UrlSrc.enc_url scheme host port) = match scheme_port u with | inl (secure, p) => (UrlSrc.enc_url scheme (Some (host_of u)) (Some p), VC "Ok" [VC (if secure then "Scheme::Amqps" else "Scheme::Amqp") []]) | inr _ => (UrlSrc.enc_url scheme (Some (host_of u)) port, VC "Err" [VC "Error::InvalidUrlScheme" [UrlSrc.enc_url scheme (Some (host_of u)) port]]) end.
+Check C19_decode_source_is_model : forall u : surl, u_segments u <> Some [] -> gen_decode ext_model (enc_url u) = enc_result (enc_url u) (decode u).
 
 Print Assumptions C19_percent_roundtrip.
 Print Assumptions C19_percent_plain.
@@ -96,4 +101,5 @@ Print Assumptions C19_userinfo.
 Print Assumptions C19_secure_gate.
 Print Assumptions C19_secure_gate_insecure.
 Print Assumptions C19_populate_source_is_model.
+Print Assumptions C19_decode_source_is_model.
 Print Assumptions C19_example.
